@@ -97,6 +97,99 @@ pub fn run(args: &Args) {
     part.finish(args.out.as_deref());
 }
 
+/// C04 / C18 supplement: the other way out of a blocked hand-over - the I/O side takes the
+/// queued requests, and the blocked request goes through like any other. A request that finds
+/// the queue to the I/O thread full is neither lost nor failed: it waits (that is the
+/// back-pressure), is handed over when there is room, and a synchronous call then gets the reply
+/// to that very call.
+pub fn run_resume(args: &Args) {
+    use amiquip::verif::probe::TapMsg;
+    use amq_protocol::protocol::{queue, AMQPClass};
+    std::panic::set_hook(Box::new(|_| {}));
+    let mut part = Part::new("C04", "backpressure", "seqx", "exploration", &args.tier);
+    part.rule = "a request made while the queue to the I/O thread is full (mem_channel_bound 1 and 2, filled with publishes; real thread, real blocking send): a publish, a nowait purge, a synchronous purge (answered with message_count 42 once the I/O side has seen the request), a listener registration; with a pause that lets the request block first and without it. Once the I/O side takes the queue, the request arrives behind the filling publishes, exactly once, and the call returns Ok (the synchronous one with 42).".into();
+    for bound in [1usize, 2] {
+        for op in ["publish", "purge-nowait", "purge", "listen-returns"] {
+            for pause_ms in [150u64, 0] {
+                part.evaluations += 1;
+                part.distinct_nontrivial += 1;
+                let replay = json!({"engine":"seqx","check":"handover","op":op,"kind":"resume","bound":bound,"pause_ms":pause_ms});
+                let (probe, ch) = ChannelProbe::open(131072, 7, bound);
+                let _ = probe.tap();
+                let mut setup_ok = true;
+                for i in 0..bound {
+                    setup_ok &= ch.basic_publish("", Publish::new(format!("fill-{}", i).as_bytes(), "k")).is_ok();
+                }
+                if !setup_ok {
+                    part.violation("backpressure:setup", "a publish into a queue with room failed".into(), replay);
+                    continue;
+                }
+                let (tx, rx) = std::sync::mpsc::channel::<Result<String, Error>>();
+                let op2 = op.to_string();
+                let t = std::thread::spawn(move || {
+                    let r = match op2.as_str() {
+                        "publish" => ch.basic_publish("", Publish::new(b"blocked", "k")).map(|_| "()".to_string()),
+                        "purge-nowait" => ch.queue_purge_nowait("q").map(|_| "()".to_string()),
+                        "purge" => ch.queue_purge("q").map(|n| n.to_string()),
+                        _ => ch.listen_for_returns().map(|_| "()".to_string()),
+                    };
+                    let _ = tx.send(r);
+                    std::mem::forget(ch);
+                });
+                if pause_ms > 0 {
+                    std::thread::sleep(std::time::Duration::from_millis(pause_ms));
+                }
+                // the I/O side: take what is queued until the request has arrived (10 s at most)
+                let started = std::time::Instant::now();
+                let mut seen: Vec<TapMsg> = Vec::new();
+                let mut answered = false;
+                let is_request = |m: &TapMsg| match (op, m) {
+                    ("publish", TapMsg::Send(b)) => b.windows(7).any(|w| w == b"blocked"),
+                    ("purge-nowait", TapMsg::Send(b)) | ("purge", TapMsg::Send(b)) => b.len() > 11 && b[7..11] == [0, 50, 0, 30],
+                    ("listen-returns", TapMsg::SetReturnHandler(true)) => true,
+                    _ => false,
+                };
+                let mut got: Option<Result<String, Error>> = None;
+                while started.elapsed() < std::time::Duration::from_secs(10) {
+                    seen.extend(probe.tap());
+                    if op == "purge" && !answered && seen.iter().any(|m| is_request(m)) {
+                        probe.preload(Reply::Method(AMQPClass::Queue(queue::AMQPMethod::PurgeOk(queue::PurgeOk { message_count: 42 }))));
+                        answered = true;
+                    }
+                    if let Ok(r) = rx.recv_timeout(std::time::Duration::from_millis(5)) {
+                        got = Some(r);
+                        seen.extend(probe.tap());
+                        break;
+                    }
+                }
+                let got_s = match &got {
+                    Some(Ok(s)) => format!("Ok({})", s),
+                    Some(Err(e)) => format!("Err({})", name(e)),
+                    None => "no result within 10 s".to_string(),
+                };
+                let want = if op == "purge" { "Ok(42)" } else { "Ok(())" };
+                let requests = seen.iter().filter(|m| is_request(m)).count();
+                let fills = seen.iter().filter(|m| matches!(m, TapMsg::Send(b) if b.windows(5).any(|w| w == b"fill-"))).count();
+                let in_order = seen.last().map(|m| is_request(m)).unwrap_or(false);
+                part.outcome(&format!("{} requests={} fills={}", got_s, requests, fills));
+                if got_s != want || requests != 1 || fills != bound || !in_order {
+                    part.violation(
+                        &format!("backpressure:{}:{}", op, got_s),
+                        format!("{} made while the queue (bound {}) was full (pause {} ms), then the I/O side took the queue: returned {} expected {}; the I/O side received {} of {} filling publishes and the request {} time(s){}", op, bound, pause_ms, got_s, want, fills, bound, requests, if in_order { "" } else { ", not as the last message" }),
+                        replay,
+                    );
+                }
+                if got.is_some() {
+                    let _ = t.join();
+                }
+                drop(probe);
+            }
+        }
+    }
+    part.assumptions.push("one schedule per case (the request blocks first, forced by a pause, or races the I/O side taking the queue); the verdict is the same on both sides of the race".into());
+    part.finish(args.out.as_deref());
+}
+
 pub fn replay(v: &serde_json::Value) -> bool {
     println!("re-run: seqx handover (case {} / {} / pause {})", v["op"], v["kind"], v["pause_ms"]);
     true
